@@ -61,19 +61,23 @@ BothReady == \/ ~Binary \/ Dead
 (* number of derived values the node owes its moving average in this step (-1: not determined), from the definition:
    PFE derives one value per delivered value once N have been delivered; EFT one per delivered value unless its window is flat *)
 InnerOf == ChildOf(ChildOf(Cfg, 1), 1)
+(* <<lo, hi>>: how many derived values the node may owe its average in this step *)
 Derived ==
     LET now == Delivered(InnerOf, Raw)
         bef == Delivered(InnerOf, Front(Raw))
-    IN  IF ~now[1] \/ ~bef[1] THEN -1
-        ELSE IF Len(now[2]) = Len(bef[2]) THEN 0
-        ELSE IF Cfg.k = "PolarizedFractalEfficiency" THEN (IF Len(now[2]) >= Cfg.n THEN 1 ELSE 0)
-        ELSE IF AllEqual(LastK(now[2], Cfg.n)) THEN 0 ELSE 1
+    IN  IF ~now[1] \/ ~bef[1] THEN <<0, 1>>
+        ELSE IF Len(now[2]) = Len(bef[2]) THEN <<0, 0>>
+        ELSE IF Cfg.k = "PolarizedFractalEfficiency" THEN (IF Len(now[2]) >= Cfg.n THEN <<1, 1>> ELSE <<0, 0>>)
+        ELSE LET w == LastK(now[2], Cfg.n)
+                 spread == QSub(QMaxSeq(w), QMinSeq(w))
+             IN  \* a window that is flat in exact arithmetic may be flat or not in floating point (values such as 7/6);
+                 \* a window that is clearly not flat must produce exactly one derived value
+                 IF QLe(spread, QMul(QPow10Neg(9), QMax(QOne, QAbs(QMaxSeq(w))))) THEN <<0, 1>> ELSE <<1, 1>>
 MaSlot == \/ ~HasMA \/ Len(hist) = 0 \/ Dead
-          \/ LET d == Derived IN
-             \/ d < 0
-             \/ /\ Tally("ma-slot")
-                /\ Len(Us(5)) = d /\ Len(Us(4)) = d
-                /\ (d = 0 \/ OSame(Us(5)[1][3], Us(4)[1][3]))
+          \/ LET d == Derived n5 == Len(Us(5)) IN
+             /\ Tally("ma-slot")
+             /\ n5 >= d[1] /\ n5 <= d[2] /\ Len(Us(4)) = n5
+             /\ (n5 = 0 \/ OSame(Us(5)[1][3], Us(4)[1][3]))
 
 Live == /\ (SameAnswer \/ Report("C01", "same-answer"))
         /\ (ForwardOnce \/ Report("C01", "forward-once"))
